@@ -106,7 +106,22 @@ Proof.
 Qed.
 
 (* [isort_by] (Base/SortPerm.v) inserts x after every element that is <= x: Go's insertionSort *)
-Definition display_ltb (a b : raw) : bool := str_ltb (display a) (display b).
+(* ByDisplay.Less: lexicographic comparison over the fields the Go body reads, in order
+   (regenerated: Gen.Tables.common_ByDisplay_less_fields — [Display; Value] since the tie-break fix) *)
+Definition field_by_name (n : str) (r : raw) : str :=
+  if str_eqb n (B [68;105;115;112;108;97;121]) then display r                       (* Display *)
+  else if str_eqb n (B [86;97;108;117;101]) then value r                            (* Value *)
+  else if str_eqb n (B [68;101;115;99;114;105;112;116;105;111;110]) then description r   (* Description *)
+  else if str_eqb n (B [83;116;121;108;101]) then style r                           (* Style *)
+  else if str_eqb n (B [84;97;103]) then tag r                                      (* Tag *)
+  else [].
+Fixpoint lex_ltb (ks : list str) (a b : raw) : bool :=
+  match ks with
+  | [] => false
+  | k :: ks' => if str_eqb (field_by_name k a) (field_by_name k b) then lex_ltb ks' a b
+                else str_ltb (field_by_name k a) (field_by_name k b)
+  end.
+Definition display_ltb (a b : raw) : bool := lex_ltb common_ByDisplay_less_fields a b.
 Definition sort_by_display (vs : list raw) : list raw := isort_by display_ltb vs.
 
 (* ---------- Messages.Integrate (message.go:70-126) ---------- *)
